@@ -427,16 +427,25 @@ def run_check(prop, tier, master, n_runs=None, budget_s=None):
     t0 = time.time()
     budget_s = budget_s or (170 if tier == "quick" else 2400)
     nproc = n_runs or (48 if tier == "quick" else 480)
-    res, errors, skipped = common.run_machine_batch("sim.machines.c15", f"C15-{tier}", master, nproc, 70 if tier == "quick" else 250, 20, budget_s, extra={"real_fit": tier == "thorough"})
+    res, errors, skipped = common.run_machine_batch("sim.machines.c15", f"C15-{tier}", master, nproc, 70 if tier == "quick" else 250, 20, budget_s * 0.6, extra={"real_fit": tier == "thorough"})
     summ, viol = common.summarise(res)
     out_viol = common.violations_to_replays("C15", "machine-c15", viol)
+    from .. import propchecks
+
+    n_a = 50 if tier == "quick" else 2000
+    res_a, err_a, skipped_a = propchecks.inrun_batch("C15", f"C15-{tier}-inrun", master, n_a, ["PaVeBaGP", "PaVeBaPartialGP", "VOGP", "EpsilonPAL", "DecoupledGP", "VOGP_AD"], ["C15", "C07"], opts={"fault_rates": (0.0,), "envs": ["real"]}, budget_s=max(30.0, budget_s - (time.time() - t0)))
+    summ_a, viol_a, nontrivial_a = propchecks.inrun_summary("C15", res_a)
+    out_viol += viol_a
+    errors = errors + err_a
+    skipped += skipped_a
     wall = time.time() - t0
     coverage = {
-        "evaluations": summ["examples"],
-        "distinct_nontrivial": summ["distinct_op_sequences"],
-        "rule": "evaluations = Hypothesis machine examples (add_sample / update / clear_data / predict / hyper-parameter report / factory-helper histories on the three GP model classes). Distinct non-trivial = distinct operation-name sequences of length >= 2",
-        "samples": summ["samples"],
+        "evaluations": summ["examples"] + len(res_a),
+        "distinct_nontrivial": summ["distinct_op_sequences"] + len(nontrivial_a),
+        "rule": "evaluations = Hypothesis machine examples (add_sample / update / clear_data / predict / hyper-parameter report / factory-helper histories on the three GP model classes) + simulated runs of the GP algorithms with the real models (closed-form posterior of the reported training data after every evaluating phase). Distinct non-trivial = distinct operation-name sequences of length >= 2 + distinct run trajectories with a judged posterior",
+        "samples": summ["samples"] + summ_a["samples"][:1],
         "machine": summ,
+        "in_run": summ_a,
         "runs_skipped_for_time_budget": skipped,
         "examples_per_hour": round(summ["examples"] / max(wall, 1e-9) * 3600),
         "real_vs_stub": {"real": ["IndependentExactGPyTorchModel", "CorrelatedExactGPyTorchModel", "GPyTorchModelListExactModel", "factory helpers", "gpytorch exact inference"], "simulated": ["hyper-parameter fitting (seeded values; real L-BFGS fit in a fraction of helper operations of the thorough tier)", "operation histories (Hypothesis, seeded)"]},
